@@ -55,7 +55,7 @@ class Family:
     """Shared description of a group of classes: type map, struct layouts, operators."""
 
     def __init__(self, name, typemap=None, classes=(), ops=None, callops=None, conv=None, funcs=None, struct_methods=None,
-                 typenames=(), templates=(), extra_structs=None, floating=('float', 'double', 'long double', 'Floating')):
+                 typenames=(), templates=(), extra_structs=None, floating=('float', 'double', 'long double', 'Floating'), verbatim=()):
         self.name = name
         self.typemap = typemap or {}
         self.classes = {c.key: c for c in classes}
@@ -68,6 +68,7 @@ class Family:
         self.templates = set(templates)
         self.extra_structs = extra_structs or {}   # name -> {field: type} for structs not parsed from a class
         self.floating = set(floating)
+        self.verbatim = list(verbatim)
 
 
 class Extraction:
@@ -106,6 +107,7 @@ class UnitBuilder:
         self.consts = {}            # class key -> {name: (cexpr, type)}
         self.mutable_fields = []
         self._scan_classes()
+        self._check_verbatim()
 
     # ------------------------------------------------------------ classes -> C structs
     def base_ctx(self, cls=None):
@@ -193,6 +195,17 @@ class UnitBuilder:
                     t = ctx.typeof(e)
                 self.const_text.append('#define %s ((%s)(%s))' % (cname, ctx.ctype(t), txt))
                 consts[nm] = (cname, t)
+
+    def _check_verbatim(self):
+        """one-line operators that the family renders by hand (prelude text) are compared, whitespace-normalised, with the
+        body found in the working tree: an edit of such an operator is an extraction break, never a silent mismatch"""
+        for (src_rel, cls, ordinal, name, fn_ord, expected) in getattr(self.fam, 'verbatim', []):
+            src = source(self.repo, src_rel)
+            scope = src.find_class(cls, ordinal) if cls else None
+            f = src.find_function(name, fn_ord, scope)
+            got = re.sub(r'\s+', ' ', f['body']).strip()
+            if got != expected:
+                raise ExtractionBreak('hand-rendered operator %s::%s changed in the working tree: `%s` (expected `%s`)' % (cls, name, got, expected))
 
     def _typenames(self):
         return set(self.fam.typenames) | set(self.fam.typemap) | set(self.struct_fields) | set(self.fam.extra_structs)
